@@ -505,7 +505,7 @@ def _implies_not_hasattr(test, attr):
 PRIVATE_MAKERS = {"deepcopy", "copy.deepcopy", "clone", "check_budget_manager"}
 
 
-def _private_value(p, f, v, params):
+def _private_value(p, f, v, params, _depth=0):
     """Is the value of expression v a fresh object nobody else holds: a deep copy / clone, or an instance built
     right here (call of a project class or of a `*_class` parameter)?"""
     if not isinstance(v, ast.Call):
@@ -516,7 +516,25 @@ def _private_value(p, f, v, params):
     if isinstance(v.func, ast.Name) and v.func.id in params and v.func.id.endswith("_class"):
         return True
     r = p.resolve_expr(f.module, v.func) if isinstance(v.func, (ast.Name, ast.Attribute)) else None
-    return r is not None and r[0] == "class"
+    if r is not None and r[0] == "class":
+        return True
+    # a private factory method of the same class (`self._create_budget_manager()`): private when each of its returns is
+    if _depth < 2 and isinstance(v.func, ast.Attribute) and isinstance(v.func.value, ast.Name) and v.func.value.id == "self" \
+            and getattr(f, "cls", None) is not None:
+        h = p.find_method(f.cls, v.func.attr)
+        if h is not None:
+            hp = set(h.all_param_names())
+            rets = [n for n in ast.walk(h.node) if isinstance(n, ast.Return) and n.value is not None]
+            def _priv_ret(rv):
+                if _private_value(p, h, rv, hp, _depth + 1):
+                    return True
+                if isinstance(rv, ast.Name):
+                    defs = [d for d in ast.walk(h.node) if isinstance(d, ast.Assign)
+                            and any(isinstance(t, ast.Name) and t.id == rv.id for t in d.targets)]
+                    return bool(defs) and rv.id not in hp and all(_private_value(p, h, d.value, hp, _depth + 1) for d in defs)
+                return False
+            return bool(rets) and all(_priv_ret(n.value) for n in rets)
+    return False
 
 
 def check_manager_private(p, report, rule="R4.9"):
